@@ -95,4 +95,27 @@ theorem autoOp_real_isAdj {jt} (hjt : JaxTranspose (K := K) jt) (m n : Nat) (M :
     rw [linearAdjoint_real hjt m n M hM y j hj]
     simp [Op.mat, sumTo_eq, conj_eq_star]
 
+
+/-! ### `linop.jacobian` -/
+
+/-- given the contract of `jax.jvp` / `jax.vjp` at the point `u` (push-forward `v ↦ J v`, pull-back `ct ↦ Jᵀ ct` for the
+    Jacobian matrix `J`), the Jacobian operator with its conjugated pull-back is an adjoint pair -/
+theorem jacobian_isAdj (m n : Nat) (J : Nat → Nat → K) (jvp G : V K → V K)
+    (hj : ∀ v, ∀ i < m, jvp v i = ∑ j ∈ range n, J i j * v j)
+    (hG : ∀ ct, ∀ j < n, G ct j = ∑ i ∈ range m, J i j * ct i) : IsAdj (Op.jacobian m n jvp G) := by
+  intro x y
+  have h := mat_isAdj m n J x y
+  have e1 : ip m (jvp x) y = ip m ((Op.mat m n J).eval x) y :=
+    ip_congr m (fun i hi => by rw [hj x i hi]; simp [Op.mat, sumTo_eq]) (fun _ _ => rfl)
+  have e2 : ip n x (conjFun G y) = ip n x ((Op.mat m n J).adj y) :=
+    ip_congr n (fun _ _ => rfl) (fun j hj' => by
+      simp only [conjFun, vconj, Op.mat, sumTo_eq, conj_eq_star]
+      rw [hG _ j hj', star_sum]
+      apply Finset.sum_congr rfl
+      intro i _
+      simp [star_mul', vconj, conj_eq_star])
+  show ip m (jvp x) y = ip n x (conjFun G y)
+  rw [e1, e2]
+  exact h
+
 end Scico.Adjoint
